@@ -49,8 +49,9 @@ def _validate_one(cfgname, trace, tag, timeout):
 def _validate(out, trace, tag, timeout=3000):
     """Judge every event of `trace` with Trace_Attr.tla (events are independent, so a big trace is cut into
     chunks judged by several TLC instances); -> (TlcResult of the first chunk with summed counters, #events)"""
-    cfgname = "Trace_Attr.%d.cfg" % os.getpid()
-    cfg = os.path.join(C.SPEC, cfgname)
+    # the generated cfg lives under work/ (an absolute -config path), never in spec/
+    os.makedirs(C.WORK, exist_ok=True)
+    cfg = cfgname = os.path.join(C.WORK, "Trace_Attr.%d.cfg" % os.getpid())
     _cfg(cfg, out.open.keys())
     total = C.count_lines(trace)
     chunk = CHUNK if CHUNK > 0 else (25000 if total > 50000 else max(2500, (total + 1) // 2))
